@@ -131,7 +131,7 @@ def ast_tree(v):
 def same_value(a, b):
     """AST equality up to the literal text of decimals"""
     if a[0] != b[0]: return False
-    if a[0] == "dec": return a[1:3] == b[1:3]
+    if a[0] == "dec": return a[1:3] == b[1:3] or float(a[3]) == float(b[3])
     if a[0] == "arr": return len(a[1]) == len(b[1]) and all(same_value(x, y) for x, y in zip(a[1], b[1]))
     if a[0] == "obj":
         return len(a[1]) == len(b[1]) and all(k == k2 and same_value(x, y) for (k, x), (k2, y) in zip(a[1], b[1]))
@@ -506,6 +506,8 @@ def mutate(sch, rng, kind, base):
     """a (usually malformed) neighbour of a canonical document: model correspondence only"""
     paths = [p for p in all_paths(base) if p]
     r = rng.random()
+    if not paths:
+        return "replace-root", rng.choice(MUTANTS)
     p = rng.choice(paths)
     if r < 0.55:
         m = rng.choice(MUTANTS) if rng.random() < 0.8 else junk(rng)
